@@ -178,6 +178,10 @@ def pruned_reaches_return_avoiding(fn, lab, label, site_bb):
     return False
 
 
+DROPPING = ("split_last", "split_first", "split_at", "skip", "take", "filter", "filter_map", "step_by", "skip_while", "take_while", "map_while",
+            "first", "last", "nth", "get", "truncate", "pop", "drain", "dedup", "retain", "chunks", "windows", "find", "position")
+
+
 def cover_method(ctx, rule, fn, vis, who):
     """COVER check of one traversal method; returns number of expected children"""
     F = ctx.F
@@ -225,6 +229,15 @@ def cover_method(ctx, rule, fn, vis, who):
                 lstr(L), node, len(hits), fn.path), fn.loc(hits[1][2]["line"]))
             continue
         body, bi, t = hits[0]
+        # a list-typed child is visited element by element: nothing on the way may drop elements
+        droppers = [(b, bi2, t2) for b in bodies for bi2, t2 in b.calls()
+                    if t2["callee"].get("name") in DROPPING and "indirect" not in t2["callee"] and t2["args"]
+                    and any(compat(l, L) for l in lab.op_labels(b, t2["args"][0]))]
+        if droppers:
+            b_, bi_, t_ = droppers[0]
+            rep.fail(rule, key, "child `%s` of %s is only visited in part: %s is applied to it before its elements are visited, so some elements are never shown to the visitor" % (
+                lstr(L), node, t_["callee"].get("name")), b_.loc(t_["line"]))
+            continue
         # the visit must happen on every non-error path (within the variant's arm)
         ok = True
         why = ""
